@@ -51,7 +51,7 @@ def run(ctx):
     if q:
         jobs = [j for j in jobs if j[1] != "MC_Rebin_even"]     # even spans: model check in the thorough tier, traces in both
     with cf.ThreadPoolExecutor(3 if q else 2) as ex:
-        futs = [ex.submit(_mc, ctx, m, c, 1 if q else 4, what, ref, 3000, "4g" if q else "10g") for (m, c, what, ref) in jobs]
+        futs = [ex.submit(_mc, ctx, m, c, 1 if q else 4, what, ref, 3000, "4g" if q else "6g") for (m, c, what, ref) in jobs]
         for f in futs:
             f.result()
     # 2. record
